@@ -1,15 +1,33 @@
 /-
-  C09 — property theorems (DESIGN.md 5.9).
+  C09 — property theorems (DESIGN.md 5.9). What each part says, and what it does not.
 
-  What is modelled: (a) the admission protocol of `Coordinator.Execute` as an interleaving semantics over ANY number
-  of threads and ANY schedule (one atomic step = one critical section of `processLock`, as the repaired code has it);
-  (b) the body of an admitted session as a sequential machine over every outcome, with the ledger of registry calls.
-  What is assumed: steps of different threads interleave at the granularity of critical sections (sequential
-  consistency of lock-protected accesses); subscription ids are unique; every wait loop eventually receives one of
-  its events (timers fire). Not covered by proof: Go-memory-model data races (only `-race` runs); retry rounds of
-  `handleError` as driven by `Execute` (they depend on the repair of C11 — only their effect on a process object,
-  Run again / one Stop, is modelled: `rerun_releases_all`); third-party MPC code inside `Run`; a `Run` that never
-  returns (known finding C10-run-stuck-on-outchn).
+  (a) Admission (`mutex_all_schedules`, `peak_le_one`, `exactly_one_admitted`, `admitted_when_free`,
+      `quiescent_clears_flags`): an interleaving semantics over ANY number of requests and ANY schedule; one step =
+      one critical section of `processLock` (that test-and-set is one critical section is the regenerated fact of
+      Oblig/C09; that critical sections exclude each other is an ASSUMPTION, probed by the `excl` op and by -race).
+      The body of a running session is one abstract `finish` step here.
+  (b) One session, SEQUENTIALLY composed (`session_cleans_up`, `sessions_any_order` = any order of kinds/outcomes, one
+      session after the other on one coordinator; concurrency between sessions of DIFFERENT ids is not modelled beyond
+      the registries being keyed by session id). The session is a straight-line ledger program over the two
+      communications' registries. An outcome enters it only through what it makes the code DO to the registries:
+        · does the first attempt reach `Run`            (`Outcome.ran`:   ok fail failmsg gtorun cancelrun comm subset)
+        · does `Execute`/`start` return nil             (`Outcome.retOk`: ok cancelrun cancel precancel)
+        · is `handleError` entered and what it then does (`retryable`, `second`: election or not, who coordinates,
+          whether the processes run again, how it ends).
+      Outcomes that agree on these do the same registry operations in the code (they differ in WHICH select arm
+      returns), so they have identical reports by construction: {ok}, {cancelrun}, {fail failmsg gtorun comm subset},
+      {cancel precancel}, {silent gto badstart stranger readyerr}. The processes of a session are one group (run
+      together, stopped together, as `Execute`'s loops do); `Report.runs/stops` are that group's counters.
+      `releaseAll` returns the empty entry because `ReleaseStreams` deletes the entry whatever `Close()` returned - the
+      content of the theorem is that the REPORT (streams left, unclosed, stale) is clean for every pattern in
+      `Sess.opened`; `release_leaves_nothing` is a projection of `session_cleans_up`, and `timeout_not_postponed`,
+      `refusal_touches_nothing` hold by unfolding definitions (they pin the model down, they are not results).
+      Hypotheses that restrict the quantifier: the id is not pending and has no stream / subscription left at the
+      start (`hp hs hes hl hel`) - exactly what the previous session's theorem establishes.
+  (c) Shared registries (`no_stream_lost`): sends against releases of one session, each one critical section, any
+      interleaving. `rerun_releases_all`: a process object run n times, stopped once.
+  Not covered by proof: Go-memory-model data races (-race runs); third-party MPC code inside `Run`; a `Run` that never
+  returns (known finding C10-run-stuck-on-outchn); timers are events (every wait loop eventually gets one).
 -/
 import SygmaModel.Model.C09
 namespace Sygma.C09
@@ -328,6 +346,8 @@ theorem session_cleans_up (l : Led) (s : Sess) (hp : s.sid ∉ l.pending) (hs : 
     intro α f sid v; simp [upd]
   have same : ∀ {α : Type} (f : Sid → List α) (sid : Sid), f sid = [] → upd f sid [] = f := by
     intro α f sid h; funext x; unfold upd; split <;> simp_all
+  have ft : ∀ (xs : List Strm), xs.filter (fun _ => true) = xs := fun xs => List.filter_eq_self.2 (fun _ _ => rfl)
+  have ff : ∀ (xs : List Strm), xs.filter (fun _ => false) = [] := fun xs => List.filter_eq_nil_iff.2 (fun _ _ => by simp)
   obtain ⟨sid, role, nproc, out, retryable, second, opened⟩ := s
   simp only at hp hs hes hpf hef hl hel hp' hes'
   have sl := same l.live sid hl
@@ -337,24 +357,24 @@ theorem session_cleans_up (l : Led) (s : Sess) (hp : s.sid ∉ l.pending) (hs : 
   · -- handleError is not entered
     cases hran : out.ran <;>
       simp [execute, executeWith, hh, hp, hran, Led.sub, Led.unsub, Led.unsubOpt, upd_upd, upd_self, sl, se, ss, hl, hel,
-        hp', hes', sizeOf', Clean, liveOf, hs, hes, releaseAll, registerAll, staleHits] <;>
+        hp', hes', sizeOf', Clean, liveOf, hs, hes, releaseAll, registerAll, staleHits, runGroup, stopGroup, addStreams, ft, ff] <;>
       ((repeat' constructor) <;> first | assumption | omega | (split <;> simp) | (intro n hn; omega) | (simp +arith [List.filter] <;> omega))
   · cases hran : out.ran <;> rcases second with _ | ⟨el, fin, alive⟩
     · simp [execute, executeWith, hh, hp, hran, Led.sub, Led.unsub, Led.unsubOpt, upd_upd, upd_self, sl, se, ss, hl, hel,
-        hp', hes', sizeOf', Clean, liveOf, hs, hes, releaseAll, registerAll, staleHits]
+        hp', hes', sizeOf', Clean, liveOf, hs, hes, releaseAll, registerAll, staleHits, runGroup, stopGroup, addStreams, ft, ff]
       all_goals ((repeat' constructor) <;> first | assumption | omega | (split <;> simp) | (intro n hn; omega) | (simp +arith [List.filter] <;> omega))
     · cases el <;> cases hr2 : fin.ran <;>
         simp [execute, executeWith, hh, secondAttempt, election, hp, hran, hr2, Led.sub, Led.unsub, Led.unsubOpt,
           Led.esub, Led.eunsub, upd_upd, upd_self, sl, se, ss, hl, hel, hp', hes', sizeOf', Clean, liveOf, hs, hes,
-          waitSubs2, releaseAll, registerAll, staleHits] <;>
+          waitSubs2, releaseAll, registerAll, staleHits, runGroup, stopGroup, addStreams, ft, ff] <;>
         ((repeat' constructor) <;> first | assumption | omega | (split <;> simp) | (intro n hn; omega) | (simp +arith [List.filter] <;> omega))
     · simp [execute, executeWith, hh, hp, hran, Led.sub, Led.unsub, Led.unsubOpt, upd_upd, upd_self, sl, se, ss, hl, hel,
-        hp', hes', sizeOf', Clean, liveOf, hs, hes, releaseAll, registerAll, staleHits]
+        hp', hes', sizeOf', Clean, liveOf, hs, hes, releaseAll, registerAll, staleHits, runGroup, stopGroup, addStreams, ft, ff]
       all_goals ((repeat' constructor) <;> first | assumption | omega | (split <;> simp) | (intro n hn; omega) | (simp +arith [List.filter] <;> omega))
     · cases el <;> cases hr2 : fin.ran <;>
         simp [execute, executeWith, hh, secondAttempt, election, hp, hran, hr2, Led.sub, Led.unsub, Led.unsubOpt,
           Led.esub, Led.eunsub, upd_upd, upd_self, sl, se, ss, hl, hel, hp', hes', sizeOf', Clean, liveOf, hs, hes,
-          waitSubs2, releaseAll, registerAll, staleHits] <;>
+          waitSubs2, releaseAll, registerAll, staleHits, runGroup, stopGroup, addStreams, ft, ff] <;>
         ((repeat' constructor) <;> first | assumption | omega | (split <;> simp) | (intro n hn; omega) | (simp +arith [List.filter] <;> omega))
 
 /-- **C09 (b), any order.** Any sequence of sessions (any ids, roles, process counts, first and second attempts in any
@@ -385,7 +405,7 @@ theorem sessions_any_order (ss : List Sess) (l : Led) (hi : l.Idle) :
 /-- a refused duplicate touches no registry -/
 theorem refusal_touches_nothing (l : Led) (s : Sess) (hp : s.sid ∈ l.pending) :
     (execute l s).1 = l ∧ (execute l s).2.ret = .refused := by
-  simp [execute, executeWith, hp]
+  simp [execute, executeWith, hp, stopGroup, Led.unsubOpt]
 
 /-- **C09 (b), streams.** Whatever `Close()` returns for each of a session's streams, after the session no stream is
     registered under its id, and a later session of the same id gets every one of its own streams registered (none
